@@ -9,6 +9,7 @@ import (
 	"bytes"
 	"encoding/binary"
 	"fmt"
+	"strings"
 	"time"
 
 	"github.com/gopacket/gopacket/layers"
@@ -215,6 +216,8 @@ func changedBytes(in, out []byte, pathOff int, leaving bool) int {
 type c12 struct {
 	e *vlib.Env
 	r *vlib.Rand
+	// c03: serve property C03 - only the acceptance of reversed one-hop paths is judged
+	c03 bool
 	// c07: serve property C07 - only the byte-level statement for one-hop packets is judged
 	c07 bool
 }
@@ -312,7 +315,7 @@ func (c *c12) predicate(a *asCfg, via uint16, raw []byte, res router.VerifR2Resu
 		return
 	}
 	bad := func(key, what string) {
-		if c.c07 {
+		if c.c07 || c.c03 {
 			return // C12's clauses are judged by ./check C12
 		}
 		c.e.Violate("C12/"+key, what, map[string]any{"op": op, "raw": vlib.Hex(raw), "via": via,
@@ -420,10 +423,18 @@ func (c *c12) reversal(a, b *asCfg, aIf, bIf uint16, completed []byte, op string
 	if c.c07 {
 		return
 	}
+	if c.c03 && !strings.HasPrefix(op, "own-completion") && !strings.HasPrefix(op, "chain") && !strings.HasPrefix(op, "built") {
+		return
+	}
 	bad := func(key, what string, extra map[string]any) {
 		m := map[string]any{"op": op, "completed": vlib.Hex(completed), "A": a.ia.String(), "B": b.ia.String()}
 		for k, v := range extra {
 			m[k] = v
+		}
+		if c.c03 {
+			m["stage"] = key
+			c.e.Violate("C03/ohp-reverse-rejected", what, m)
+			return
 		}
 		c.e.Violate("C12/"+key, what, m)
 	}
@@ -527,6 +538,33 @@ func (c *c12) concurrent(A, B *asCfg, aIf, bIf uint16, per int) {
 	}
 }
 
+// reversalOwnCompletion: the one-hop path completed not by B's router (which copies the first hop's
+// expiry) but the way B's control service extends it: a second hop field of B's own with ANOTHER expiry,
+// MAC under B's key over the accumulated SegID. The reversed path must still pass both routers.
+func (c *c12) reversalOwnCompletion(a, b *asCfg, aIf, bIf uint16, issued []byte, tag string) {
+	s, err := decodeSCION(issued)
+	if err != nil {
+		return
+	}
+	oh, ok := s.Path.(*onehop.Path)
+	if !ok {
+		return
+	}
+	exp2 := uint8(c.r.Range(30, 255))
+	if exp2 == oh.FirstHop.ExpTime {
+		exp2--
+	}
+	sh := path.HopField{ConsIngress: bIf, ExpTime: exp2}
+	copy(sh.Mac[:], hopMacFull(b.key, oh.Info.SegID, oh.Info.Timestamp, exp2, bIf, 0)[:6])
+	oh.SecondHop = sh
+	hdr, _ := parseRawHdr(issued)
+	completed := append([]byte(nil), issued...)
+	if err := oh.SerializeTo(completed[12+hdr.addrLen:]); err != nil {
+		return
+	}
+	c.reversal(a, b, aIf, bIf, completed, "own-completion:"+tag)
+}
+
 func (c *c12) mkPair(i int) (*asCfg, *asCfg, uint16, uint16) {
 	r := c.r
 	A := &asCfg{ia: ia(1, 0xff0000000110+uint64(i%3)), key: r.Bytes(16), reuse: r.Bool(), svcCS: r.Chance(80)}
@@ -621,7 +659,7 @@ func (c *c12) run() {
 		"second hop prefilled, reserved bits, HdrLen slack, destination host kind, L4 kind, wrong receiving interface), 30% with HBH / E2E / HBH+E2E extension headers; " +
 		"4 packet processors of one data plane handling valid one-hop packets concurrently vs. one processor; " +
 		"non-trivial = every packet (all reach processOHP or the header decoder's length check); distinct by op line"
-	if !c.c07 {
+	if !c.c07 && !c.c03 {
 		c.bfdSendCases(e.N(12, 120))
 	}
 	npairs := e.N(24, 200)
@@ -629,7 +667,7 @@ func (c *c12) run() {
 	other := ia(3, 0xff0000000999)
 	for pi := 0; pi < npairs; pi++ {
 		A, B, aIf, bIf := c.mkPair(pi)
-		if pi < e.N(3, 12) && !c.c07 {
+		if pi < e.N(3, 12) && !c.c07 && !c.c03 {
 			c.concurrent(A, B, aIf, bIf, e.N(800, 4000))
 		}
 		for k := 0; k < per; k++ {
@@ -797,6 +835,9 @@ func (c *c12) run() {
 				res2 := c.step(B, bIf, resA.Out, resolvesLocally(q.dk, q.l4, B.svcCS), "chain/"+mut)
 				if res2.Disp == router.VerifR2Forward {
 					c.reversal(A, B, aIf, bIf, res2.Out, "chain:"+mut)
+				}
+				if q.slack == 0 && q.ext == 0 && q.pldDelta == 0 && q.trunc == 0 && q.hdrDelta == 0 && q.cutTo == 0 {
+					c.reversalOwnCompletion(A, B, aIf, bIf, resA.Out, mut)
 				}
 			}
 		}
